@@ -4,7 +4,7 @@
 (*   array of n copies of an item / object of n copies of an entry          *)
 (* under a fixed option record.  For each family the printed text has the   *)
 (* closed form  head \o unit^(n-1) \o tail ; TLC checks the closed form     *)
-(* against JsonPrinter!Print for n = 1..NMax (invariant ClosedForm) and     *)
+(* against JsonPrinter!Render for n = 1..NMax (invariant ClosedForm) and     *)
 (* prints the family once; the harness builds the value for large n (tens   *)
 (* of thousands of children, more than 65535 characters) and compares the   *)
 (* real printer's output with the closed form.                              *)
@@ -39,7 +39,7 @@ WInit == f \in Families /\ n = 1
 WNext == n < NMax /\ n' = n + 1 /\ f' = f
 WSpec == WInit /\ [][WNext]_vars
 
-ClosedForm == Print(Wide(f, n), f.o) = Closed(f, n)
+ClosedForm == Render(Wide(f, n), f.o) = Closed(f, n)
 Dump == n = NMax => \A size \in Sizes :
   PrintT(ToJson([k |-> "wide", name |-> f.name, kind |-> f.kind, key |-> f.key, item |-> f.item, o |-> f.o,
                  head |-> f.head, unit |-> f.unit, tail |-> f.tail, n |-> size]))
